@@ -21,6 +21,7 @@ echo "== with change: existing tests of $PKG"
 go test -vet=off -count=1 -timeout 900s "./$PKG/" 2>&1 | tail -3
 git checkout -q -- .
 echo "== checks on /repo with the change"
+[ -z "$(git -C /repo status --porcelain)" ] || { echo "REFUSING: /repo has uncommitted changes"; exit 2; }
 git -C /repo apply "$DIFF" || { echo "APPLY to /repo FAILED (contract files?)"; exit 2; }
 for p in $PROPS; do (cd /verif && ./check $p quick 2>&1 | grep -E "^(VIOLATION|property=)" | cut -c1-260); done
 git -C /repo checkout -- .
